@@ -47,6 +47,16 @@ def simple_case(entry, doc, exts, pre, strict):
         return "hist F,%s;v,%s,%s,%s" % (snap_arg(pre), strict, hx(b"tgt"), hx(doc))
 
 
+HOOK_POINTS = ["feed.send", "gen.err", "gen.line", "gen.recv", "grow.err", "grow.recv", "herr.reader", "herr.start", "mkdir.err",
+               "mkdir.recv", "split.err", "split.send", "spread.err", "spread.locked", "spread.recv", "verify.err", "verify.recv",
+               "walk.err", "walk.recv"]
+
+
+def directed_delay(rng):
+    """a directed schedule: every visit of one hand-over point is delayed"""
+    return "d%s:%d" % (rng.choice(HOOK_POINTS), rng.choice([200, 1000, 3000]))
+
+
 def stage_docs(rng, tier):
     """documents for the splitter / generate-worker correspondence (model Conc/Splitter.v)"""
     docs = []
@@ -174,10 +184,13 @@ def run(ck, rng):
     mcases, scases = [], []
     for entry, doc, items, exts, pre, strict, tag, kind in scen:
         procs = rng.choice([1, 2, 4, 16])
-        seed = rng.choice([0, rng.randint(1, 10 ** 6), rng.randint(1, 10 ** 6)])
+        seed = rng.choice([0, rng.randint(1, 10 ** 6), rng.randint(1, 10 ** 6), directed_delay(rng)])
         if tag == "non_uniform_blocks":
             seed = rng.randint(1, 10 ** 6)
-        mcases.append("mscn %s %d - - - - %d %s %s %s %s %s %s" % (entry, procs, seed, rng.choice("01"), snap_arg(pre), exts_plus(exts), hx(b"tgt"), strict, hx(doc)))
+        if kind == "long":
+            # the splitter's error must be reported whether the error readers are already waiting or not
+            seed = rng.choice(["dherr.start:3000", "dherr.reader:3000", "dsplit.err:3000", 0, rng.randint(1, 10 ** 6)])
+        mcases.append("mscn %s %d - - - - %s %s %s %s %s %s %s" % (entry, procs, seed, rng.choice("01"), snap_arg(pre), exts_plus(exts), hx(b"tgt"), strict, hx(doc)))
         scases.append(simple_case(entry, doc, exts, pre, strict))
     mres, _ = run_impl(exe, mcases, per_case_timeout=40.0)
     sres, _ = run_impl(exe, scases)
